@@ -125,6 +125,10 @@ func searches(prop, tier string) []raftmc.Search {
 		dv2.MaxSizeOne = false
 		dv2.MaxCrash = 1
 		add(dv2, "divergent", d(7, 9))
+		sl := dv
+		sl.Name = "stale-long"
+		sl.MaxSizeOne = false
+		add(sl, "stale-long", d(8, 10))
 		nf := raftmc.Config{Name: "noprevote", N: 3, Storage: "mem", UseTimeout: true}
 		nf.MaxProp, nf.MaxDup = 2, 1
 		add(nf, "leader", d(7, 9))
@@ -186,6 +190,14 @@ func searches(prop, tier string) []raftmc.Search {
 			dv.MaxCrash = 1
 			dv.CrashModes = []int{raftmc.CrashP}
 			add(dv, "divergent", d(6, 8))
+			add(dv, "stale-long", d(6, 8))
+			if stg == "mem" {
+				// leader completeness on divergent logs without crashes: the deepest log-safety search
+				dn := raftmc.Config{Name: "divergent", N: 3, Storage: stg, UseTimeout: true, MaxSizeOne: true, MaxTerm: 6}
+				add(dn, "divergent", d(9, 11))
+				dn.MaxSizeOne = false
+				add(dn, "stale-long", d(8, 10))
+			}
 		}
 		n2 := raftmc.Config{Name: "crash-n2", N: 2, PreVote: true, CheckQuorum: true, Storage: "mem", UseTimeout: true, UseTick: true}
 		n2.MaxCrash, n2.MaxProp = 2, 1
